@@ -100,7 +100,8 @@ Print Assumptions C07_no_trace_from_genesis.
    Then the observations of the valid events (accept codes, frames assigned by Build, blocks with
    Atropos and cheaters) are exactly those of the run without noise, and equal the reference:
    rejected and merely built events leave no trace.  ok_from: every noise operation, in the state in
-   which it is executed, is such an operation (a Build did not crash, a Process was skipped/rejected).
+   which it is executed, is such an operation: nothing is asked of Builds and probes (LinkNoise.build_alive:
+   a Build never crashes here); a noise Process was skipped or rejected with ErrWrongFrame.
    noise_side: ids of valid and rejected events are not temporary ids for a counter <= K, K >= number of
    Builds in the whole schedule, K < 2^192. *)
 From LV Require Import spec.ElectionSpec proofs.BftProps proofs.LinkVals proofs.LinkPerm proofs.LinkDefs
